@@ -99,6 +99,8 @@ def run(repo, chk):
            "ptera/transform.py (visit_FunctionDef, visit_Yield) + ptera/overlay.py (proceed)",
            "a generator suspended at a yield keeps the ContextVar set to its own handler collection: code run by the driver between two next() calls is matched "
            "as if it ran inside the generator, and closing generators out of order (or after their overlay ended) resets stale tokens and re-installs dead handlers")
+    from .shared import token_only_restore_obligations
+    token_only_restore_obligations(repo, chk, "R09.2", "finishing a generator from another context than the one it started in never installs the collection remembered from the starting context")
     from .shared import contextmanager_release_obligations
     contextmanager_release_obligations(repo, chk, "R09.2", "a block that is left because a generator was exhausted (StopIteration) or had an exception thrown into it does not leave the overlay's handlers installed for the driver")
     from .shared import keep_pending_obligations
